@@ -104,9 +104,8 @@ class DetectVarNames( ast.NodeVisitor ):
           if   x in self.locals:  pass # a local of the block (e.g. a loop variable) shadows globals
           elif x in self.closure: n = (True, x)   # enclosing scope first,
           elif x in self.globals: n = (False, x)  # then the module
-        elif isinstance( v, ast.Call ): # int(x)
-          for x in v.args:
-            self.visit(x)
+        elif isinstance( v, ast.Call ): # int(x), or a function of the component
+          self.visit( v )
         else: # any other expression, e.g. s.sel + 1 or s.sel[0:2]
           self.visit( v )
 
@@ -207,9 +206,8 @@ class DetectVarNames( ast.NodeVisitor ):
           if   x in self.locals:  pass # a local of the block (e.g. a loop variable) shadows globals
           elif x in self.closure: n = (True, x)   # enclosing scope first,
           elif x in self.globals: n = (False, x)  # then the module
-        elif isinstance( v, ast.Call ): # int(x)
-          for x in v.args:
-            self.visit(x)
+        elif isinstance( v, ast.Call ): # int(x), or a function of the component
+          self.visit( v )
         elif isinstance( v, ast.Slice ): # s.sel, may be constant
           raise TypeError( f"Having slice in the middle such as s.x[1][1:2][1][2] "
                            f"doesn't make sense at line {input_node.lineno} of "
